@@ -251,6 +251,11 @@ def note_labels(ctx, labels):
     d = ctx.extra.setdefault("design_labels", {})
     for k, n in labels.items():
         d[k] = d.get(k, 0) + n
+    odd = {k: n for k, n in labels.items() if k.startswith("state_machine:unexplained")}
+    if odd:
+        # informational (no listed property is "the state machine"): a departure from SessionStates.tla is worth a look
+        print("NOTE property=%s %d recorded calls depart from the session state machine of SessionStates.tla: %s" %
+              (ctx.pid, sum(odd.values()), ", ".join("%s x%d" % (k.split(":", 2)[2], n) for k, n in sorted(odd.items())[:6])))
     if labels and not any(k == "state_machine:step_conforms" for k in labels):
         raise core.Infra("no recorded call conforms to the session state machine: SessionStates.tla is not bound to the traces")
 
